@@ -60,7 +60,7 @@ def load(R):
     R.spec("MEMOVAL", ["k"], "mexc_of(bodyexc(k)) if body_raises(k) else UNWRAP(bodyval(k))")
     R.spec("MEMOIZABLE", ["k"], "not (body_raises(k) and (exc_remote(k) or exc_nonmemo(k)))")
     # store consistent with the (deterministic) functions: only memoizable outcomes are recorded, with the value the body produces
-    R.spec("CONS", ["s"], "forall(str, lambda k: implies(k in s.mementos, s.mementos[k] is not None and KEYM(s.mementos[k]) == k and MEMOIZABLE(k) and same(s.values[k], MEMOVAL(k))))")
+    R.spec("CONS", ["s"], "forall(str, lambda k: same(s.values[k], MEMOVAL(k)) and implies(k in s.mementos, s.mementos[k] is not None and KEYM(s.mementos[k]) == k and MEMOIZABLE(k)))")
     R.spec("STORE_UNCHANGED", ["s"], "forall(str, lambda k: (k in s.mementos) == old(k in s.mementos) and same(s.mementos[k], old(s.mementos[k])) and same(s.values[k], old(s.values[k])))")
     # what a caller of the memento function gets back for key k (an exception object stands for "raises it")
     R.spec("OUTCOME_OK", ["r", "k"], "exc_equiv(r, bodyexc(k)) if body_raises(k) else same(r, UNWRAP(bodyval(k)))")
@@ -232,7 +232,7 @@ def load(R):
     K = "KEYF(fn_reference_with_args)"
     FR_ = "CallStack.get()._frames"
     CALLER = "CallStack.get()._frames[-1].memento"
-    PROP = ["[C10] stack_unchanged(%s)" % FR_,
+    PROP = ["stack_unchanged(%s)" % FR_,
             # exactly one propagation into the calling frame, whichever way the call was served
             "[C10] implies(old(truthy(%s)), len(%s.invocation_metadata.invocations) == old(len(%s.invocation_metadata.invocations)) + 1 "
             "and KEYF(%s.invocation_metadata.invocations[old(len(%s.invocation_metadata.invocations))]) == %s)" % (FR_, CALLER, CALLER, CALLER, CALLER, K),
@@ -260,7 +260,91 @@ def load(R):
                         "and ghost('last_key_override') == (bodyval(%s).key_override if (not body_raises(%s) and isinstance(bodyval(%s), KeyOverrideResult)) else None))" % (K, K, K, K),
                         "[C02] implies(ghost('io_errors') == old(ghost('io_errors')) and ghost('memoize_seen') == old(ghost('memoize_seen')), %s in storage_backend.mementos)" % K,
                         ] + PROP,
-               raises={"RemoteCallException": ["[C02] body_raises(%s) and exc_remote(%s)" % (K, K), "[C02] ghost('memoize_seen') == old(ghost('memoize_seen'))", "CONS(storage_backend)"] + PROP,
-                       "NonMemoizedException+": ["[C02] body_raises(%s) and exc_nonmemo(%s)" % (K, K), "[C02] ghost('memoize_seen') == old(ghost('memoize_seen'))", "CONS(storage_backend)"] + PROP},
+               raises={"RemoteCallException": ["exc_equiv(exc, bodyexc(%s))" % K, "[C02,C15] body_raises(%s) and exc_remote(%s)" % (K, K), "[C02] ghost('memoize_seen') == old(ghost('memoize_seen'))", "[C02,C15] ghost('body_calls') <= old(ghost('body_calls')) + 1", "CONS(storage_backend)"] + PROP,
+                       "NonMemoizedException+": ["exc_equiv(exc, bodyexc(%s))" % K, "[C02,C15] body_raises(%s) and exc_nonmemo(%s)" % (K, K), "[C02] ghost('memoize_seen') == old(ghost('memoize_seen'))", "[C02,C15] ghost('body_calls') <= old(ghost('body_calls')) + 1", "CONS(storage_backend)"] + PROP},
                modifies=["storage_backend.mementos", "storage_backend.values", "ghost:body_calls", "ghost:memoize_seen", "ghost:io_errors", "ghost:last_memoized_type", "ghost:last_key_override",
                          "heap:function_dependencies", "heap:invocations", "heap:runtime", "heap:result_type", "heap:content_key"])
+
+    # ---------------------------------------------------------------- C15 / C10: LocalRunnerBackend.batch_run
+    def fwa_ctor(ex, args, kwargs):
+        """FunctionReferenceWithArguments(fn_reference, args, kwargs, context_args): assumed to keep its four arguments (C04 examines __init__)."""
+        names = ["fn_reference", "args", "kwargs", "context_args"]
+        vals = dict(zip(names, args)); vals.update(kwargs)
+        o = ex.fresh_obj("FunctionReferenceWithArguments")
+        ex.assume(ex.class_pred("FunctionReferenceWithArguments")(o))
+        for nme in names:
+            f = z3.Function("attr_" + nme, ObjSort, ObjSort)
+            ex.assume(f(o) == ex.box(vals.get(nme, VNone)))
+        return VObj(o, "FunctionReferenceWithArguments")
+    R.constructors["FunctionReferenceWithArguments"] = fwa_ctor
+
+    LR = TEnt("LocalRunnerBackend")
+    FNS = "fn_reference_with_args"
+    R.contract("runner_local:LocalRunnerBackend.batch_run", prop="C15",
+               types={"self": LR, "context": IC, "storage_backend": S, FNS: TList(FWA), "log_runner_backend": TObj("nn:RunnerBackend"), "caller_memento": TObj("Memento")},
+               returns=TList(TObj()), ghost_params=GH,
+               requires=["CONS(storage_backend)"],
+               ensures=["CONS(storage_backend)",
+                        "[C15] len(result) == len(%s)" % FNS,
+                        # position by position what the individual call returns (an exception object in its slot)
+                        "[C15] implies(not context.local.ignore_result, forall(int, lambda j: implies(0 <= j and j < len(%s), OUTCOME_OK(result[j], KEYF(%s[j])))))" % (FNS, FNS),
+                        "[C15] ghost('body_calls') <= old(ghost('body_calls')) + len(%s)" % FNS,
+                        "stack_unchanged(%s)" % FR_,
+                        # one propagation per element, in element order, whichever way each element was served
+                        "[C10] implies(old(truthy(%s)), len(%s.invocation_metadata.invocations) == old(len(%s.invocation_metadata.invocations)) + len(%s) "
+                        "and forall(int, lambda j: implies(0 <= j and j < len(%s), KEYF(%s.invocation_metadata.invocations[old(len(%s.invocation_metadata.invocations)) + j]) == KEYF(%s[j]))))" % (FR_, CALLER, CALLER, FNS, FNS, CALLER, CALLER, FNS),
+                        "[C10] implies(old(truthy(%s)), forall(int, lambda j: implies(0 <= j and j < old(len(%s.invocation_metadata.invocations)), same(%s.invocation_metadata.invocations[j], old(%s.invocation_metadata.invocations[j])))))" % (FR_, CALLER, CALLER, CALLER)],
+               loops={1: ["len(comp_result) == loop_i", "forall(int, lambda j: implies(0 <= j and j < loop_i, KEYF(comp_result[j]) == KEYF(%s[j])))" % FNS],
+                      2: ["CONS(storage_backend)", "len(results) == loop_i", "truthy(context.recursive.correlation_id)",
+                          "[C15] implies(not context.local.ignore_result, forall(int, lambda j: implies(0 <= j and j < loop_i, OUTCOME_OK(results[j], KEYF(%s[j])))))" % FNS,
+                          "[C15] ghost('body_calls') <= old(ghost('body_calls')) + loop_i",
+                          "stack_unchanged(%s)" % FR_,
+                          "[C10] implies(old(truthy(%s)), len(%s.invocation_metadata.invocations) == old(len(%s.invocation_metadata.invocations)) + loop_i "
+                          "and forall(int, lambda j: implies(0 <= j and j < loop_i, KEYF(%s.invocation_metadata.invocations[old(len(%s.invocation_metadata.invocations)) + j]) == KEYF(%s[j]))))" % (FR_, CALLER, CALLER, CALLER, CALLER, FNS),
+                          "[C10] implies(old(truthy(%s)), forall(int, lambda j: implies(0 <= j and j < old(len(%s.invocation_metadata.invocations)), same(%s.invocation_metadata.invocations[j], old(%s.invocation_metadata.invocations[j])))))" % (FR_, CALLER, CALLER, CALLER),
+                          ]},
+               labels={"comp_types": {1: TObj("nn:FunctionReferenceWithArgHash")}, "local_types": {"results": TList(TObj())}},
+               modifies=["storage_backend.mementos", "storage_backend.values", "ghost:body_calls", "ghost:memoize_seen", "ghost:io_errors", "ghost:last_memoized_type", "ghost:last_key_override",
+                         "heap:function_dependencies", "heap:invocations", "heap:runtime", "heap:result_type", "heap:content_key"])
+
+    # ---------------------------------------------------------------- C16: memento_run_batch
+    def runner_batch_run(ex, recv, args, kwargs):
+        """RunnerBackend.batch_run of an arbitrary runner: recorded in ghost state (what was dispatched), returns an arbitrary list."""
+        g = ex.st.ghost
+        g["runner_calls"] = VInt(g["runner_calls"].t + 1)
+        g["rc_runner"] = recv
+        g["rc_context"] = kwargs["context"]
+        g["rc_fns"] = kwargs["fn_reference_with_args"]
+        g["rc_caller"] = VObj(ex.box(kwargs["caller_memento"]))
+        g["rc_storage"] = kwargs["storage_backend"]
+        return ex.sym(TList(TObj()), "runner_result!%d" % ex._bump())
+    R.obj_method_hooks["batch_run"] = runner_batch_run
+
+    TOPF = "CallStack.get()._frames[-1]"
+    EFF_CTX = "(context.recursive.context_args if (context.recursive.context_args is not None or not old(truthy(%s))) else %s.recursive_context.context_args)" % (FR_, TOPF)
+    R.contract("runner_local:memento_run_batch", prop="C16",
+               types={"context": IC, FNS: TList(FWA), "storage_backend": S, "runner_backend": TObj("nn:RunnerBackend"), "log_runner_backend": TObj("nn:RunnerBackend")},
+               returns=TList(TObj()),
+               ghost_params={"runner_calls": TInt, "rc_runner": TObj(), "rc_context": IC, "rc_fns": TList(FWA), "rc_caller": TObj(), "rc_storage": S},
+               ensures=[# a call under `prevent further calls` never reaches a runner (see raises); otherwise exactly one dispatch
+                        "not (old(truthy(%s)) and %s.recursive_context.prevent_further_calls)" % (FR_, TOPF),
+                        "ghost('runner_calls') == old(ghost('runner_calls')) + 1",
+                        "implies(context.local.force_local, isinstance(ghost('rc_runner'), LocalRunnerBackend))",
+                        "implies(not context.local.force_local, same(ghost('rc_runner'), runner_backend))",
+                        # effective context arguments: the call's own when attached (even if empty), else the calling frame's
+                        "same(ghost('rc_context').recursive.context_args, %s)" % EFF_CTX,
+                        "ghost('rc_context').local == context.local",
+                        "implies(old(truthy(%s)), same(ghost('rc_context').recursive.correlation_id, %s.memento.correlation_id) and same(ghost('rc_caller'), %s.memento))" % (FR_, TOPF, TOPF),
+                        "implies(not old(truthy(%s)), ghost('rc_context') == context and ghost('rc_caller') is None)" % FR_,
+                        # the references handed to the runner carry exactly those context arguments (so the argument hash includes them) and the same function/arguments
+                        "len(ghost('rc_fns')) == len(%s)" % FNS,
+                        "forall(int, lambda j: implies(0 <= j and j < len(%s), same(ghost('rc_fns')[j].fn_reference, %s[j].fn_reference) and same(ghost('rc_fns')[j].args, %s[j].args) "
+                        "and same(ghost('rc_fns')[j].kwargs, %s[j].kwargs) and implies(not (context.recursive.context_args is not None or not old(truthy(%s))), same(ghost('rc_fns')[j].context_args, %s))))" % (FNS, FNS, FNS, FNS, FR_, EFF_CTX),
+                        "implies(context.recursive.context_args is not None or not old(truthy(%s)), forall(int, lambda j: implies(0 <= j and j < len(%s), same(ghost('rc_fns')[j], %s[j]))))" % (FR_, FNS, FNS),
+                        "stack_unchanged(%s)" % FR_],
+               raises={"RuntimeError": ["old(truthy(%s)) and %s.recursive_context.prevent_further_calls" % (FR_, TOPF), "ghost('runner_calls') == old(ghost('runner_calls'))"]},
+               loops={1: ["len(comp_result) == loop_i",
+                          "forall(int, lambda j: implies(0 <= j and j < loop_i, same(comp_result[j].fn_reference, %s[j].fn_reference) and same(comp_result[j].args, %s[j].args) "
+                          "and same(comp_result[j].kwargs, %s[j].kwargs) and same(comp_result[j].context_args, context.recursive.context_args)))" % (FNS, FNS, FNS)]},
+               labels={"comp_types": {1: TObj("nn:FunctionReferenceWithArguments")}},
+               modifies=["ghost:runner_calls", "ghost:rc_runner", "ghost:rc_context", "ghost:rc_fns", "ghost:rc_caller", "ghost:rc_storage"])
